@@ -8,7 +8,7 @@ MANIFEST = dict(
    note="Trusted: Lean kernel; axioms propext/Classical.choice/Quot.sound only; the Go harness (leaf catalogue, sentinel and issue-dependent maps, call-stack capture), the go/ast translator's classification of expressions (syntactic, no type checking: a context is 'the caller's' when it is derived from a parameter of the enclosing function), the writers of the Gen tables and the comparer. The behavioural leaves reach 22 of the 111 finalising calls; the others are covered by the static theorem only. Plain Union / Xor branches do not report their issues, so there is no message to attribute there (the matched variant of a discriminated union is covered).",
    design="DESIGN.md §5 C18; notes/C18.md")
 
-MODULES = ["Gozod.Proofs.C18"]
+MODULES = ["Gozod.Proofs.C18", "Gozod.Proofs.C18Cover"]
 THEOREMS = ["Gozod.C18." + t for t in [
     "finalize_priority", "finalize_check_first", "finalize_default_last", "finalize_silent_parse", "finalize_silent_custom", "site_winner",
     "c18_wired_partial", "c18_all_sites_partial", "c18_wired_full_false", "gap_breaks_priority",
@@ -16,6 +16,8 @@ THEOREMS = ["Gozod.C18." + t for t in [
     "setconfig_history", "setconfig_keeps_locale", "setconfig_keeps_custom", "crossed_setconfig_breaks_history",
     "site_priority", "dropSources_unconfigured", "c18_sites_partial", "c18_sites_all_partial", "c18_sites_full_false", "c18_static_dynamic",
     "c18_locales_producible", "dep_spec", "dep_site", "nested_message", "c18_every_depth", "c18_positions_exact",
+    "c18_sites_covered", "c18_sites_witnessed", "c18_producible_closed", "c18_creator_codes_columns", "c18_declared_codes_columns",
+    "c18_sites_agree_with_creators", "c18_creators_closed",
 ]]
 
 GEN = os.path.join(C.LEAN, "Gozod", "Gen")
@@ -142,6 +144,53 @@ def attach_reach(static, reach_path):
             elif leaf not in st["reached"]: st["reached"].append(leaf)
     return reach, unmatched
 
+def row_finder(static):
+    byfile = collections.defaultdict(list)
+    for s in static:
+        if s["class"] in ("finalize", "helper"): byfile[s["file"]].append(s)
+    def find(loc):
+        if loc == "-" or ":" not in loc: return None
+        f, ln = loc.rsplit(":", 1); ln = int(ln)
+        c = [s for s in byfile.get(f, []) if s["line"] <= ln <= s["end"]]
+        return min(c, key=lambda s: s["end"] - s["line"]) if c else None
+    return find
+
+def attach_cells(static, path):
+    """reach2.txt (cell, caller of FinalizeIssue, first frame outside internal/issues, code) → site['cells']"""
+    find = row_finder(static)
+    unmatched, ncells = [], 0
+    for s in static: s["cells"] = []
+    for line in open(path):
+        line = line.rstrip("\n")
+        if not line: continue
+        t = line.split("\t")
+        if t[0] == "#cells":
+            ncells = int(t[1]); continue
+        cell, fin, outer = t[0], t[1], t[2]
+        for loc in {fin, outer}:
+            st = find(loc)
+            if st is None: unmatched.append("%s %s" % (cell, loc))
+            elif cell not in st["cells"]: st["cells"].append(cell)
+    return ncells, unmatched
+
+def filter_reach_ops(static, rundir):
+    """`c18 reach` cells whose source is the schema message are kept only where the static rows build the raw issue themselves:
+    at a row that finalises an issue made elsewhere (inst = flow) the table does not say whether the instance is on it."""
+    find = row_finder(static)
+    ops = open(os.path.join(rundir, "ops.txt")).read().split("\n")
+    impl = open(os.path.join(rundir, "impl.txt")).read().split("\n")
+    if len(ops) != len(impl): return
+    ko, ki = [], []
+    for o, i in zip(ops, impl):
+        t = o.split(" ")
+        if len(t) > 6 and t[1] == "reach" and t[6] == "s":
+            ro, rf = find(t[2]), find(t[3])
+            if ro is None or rf is None or "flow" in (ro["inst"], ro["msg"]) and "flow" in (rf["inst"], rf["msg"]):
+                continue
+        ko.append(o); ki.append(i)
+    open(os.path.join(rundir, "ops.txt"), "w").write("\n".join(ko))
+    open(os.path.join(rundir, "impl.txt"), "w").write("\n".join(ki))
+
 def gen_issue_sites(static, seen):
     out = ["-- GENERATED on every run by vlib/c18.py from the go/ast translator harness/cmd/c18/sites.go (source of REPO) and, for the",
            "-- `reached` column and `leafSeen`, from the run (which FinalizeIssue call resolved each leaf's message; the raw issue the",
@@ -149,10 +198,11 @@ def gen_issue_sites(static, seen):
            "import Gozod.Model.Msg", "namespace Gozod.Gen", "open Gozod.Msg", "", "def issueSites : List IssueSite := ["]
     rows = []
     for s in static:
-        rows.append("  ⟨%s, %s, %d, %s, %s, %s, %s, %s, %s, %s, %s, [%s]⟩" % (
+        rows.append("  ⟨%s, %s, %d, %s, %s, %s, %s, %s, %s, %s, %s, [%s], %d, %s, [%s], %s⟩" % (
             lean_str(s["key"]), lean_str(s["key"].rsplit("#", 1)[0]), s["line"], "true" if s["file"].startswith("internal/issues/") else "false",
             lean_str(s["class"]), lean_str(s["code"]), lean_str(s["param"]), lean_str(s["ctx"]), lean_str(s["cfg"]), lean_str(s["inst"]),
-            lean_str(s["msg"]), ", ".join(lean_str(x) for x in s["reached"])))
+            lean_str(s["msg"]), ", ".join(lean_str(x) for x in s["reached"]), s["end"], lean_str(s["callee"]),
+            ", ".join(lean_str(x) for x in s.get("cells", [])[:1]), "true" if s.get("dead") else "false"))
     out.append(",\n".join(rows))
     out += ["]", "", "/-- leaf@position ↦ features of the raw issue the message sources are shown there -/", "def leafSeen : List (String × RawFeat) := ["]
     out.append(",\n".join("  (%s, ⟨%s, %s, %s⟩)" % (lean_str(l), lean_str(c), "true" if a == "1" else "false", "true" if b == "1" else "false")
@@ -211,11 +261,21 @@ def producible_kinds(static):
     return sorted(ks)
 
 SITES = {}
+STATIC = []
 
 def key(op, impl, M, S):
     t = C.op_body(op).split(" ")
     if t[1] == "loc":
         return "locale:%s:%s:empty-message" % (t[2], t[3])
+    if t[1] == "reach":
+        # leaf coverage: the source configured alone did not decide the message at this static call
+        find = row_finder(STATIC)
+        ro, rf = find(t[2]), find(t[3])
+        src = t[6]
+        row = next((r for r in (ro, rf) if r is not None and src in site_drops(r)), ro or rf)
+        gk = row["key"].rsplit("#", 1)[0] if row else t[2]
+        k = "static:missing-%s:%s" % (src, gk)
+        return k if impl == M else k + ":model-differs"
     site = t[2]
     d = SITES.get(site, {})
     if ">" in site:   # outer>inner: the model's entry is the inner wrapper's
@@ -247,14 +307,14 @@ def key(op, impl, M, S):
 
 def describe(op):
     t = C.op_body(op).split(" ")
-    if t[1] in ("loc", "hist", "dep"):
+    if t[1] in ("loc", "hist", "dep", "reach"):
         return C.op_comment(op).strip()
     return ("%s; configured sources %s of applicable %s (c = check message \"CHK\", s = schema message \"SCH\", p = ParseContext{Error: →\"CTX\"}, "
             "g = SetConfig(CustomError: →\"CUS\"), l = SetConfig(LocaleError: →\"LOC\")); observed = which sentinel is ZodIssue.Message (d = built-in text)"
             % (C.op_comment(op).strip(), t[6], t[5]))
 
 def run(res):
-    global SITES
+    global SITES, STATIC
     # 1. behavioural extraction from the real code
     ok, out = C.build_harness("C18")
     if not ok:
@@ -268,6 +328,17 @@ def run(res):
         C.tie_broken(res, "translator C18/issue sites", "the go/ast translator failed (rc=%d):\n%s" % (rc, out[-3000:]))
         return res.finish()
     static, helpers, lkeys = read_sites(os.path.join(rundir, "sites.json"))
+    # 1a'. C04's tables of issue codes and creators (Gen/IssueCodes.lean, Gen/IssueCreators.lean) for THIS tree: the closure
+    # theorems of Proofs/C18Cover.lean are stated over them
+    binp = os.path.join(C.BUILD, "bin", "c04gen")
+    with C.Lock("go"):
+        os.makedirs(os.path.dirname(binp), exist_ok=True)
+        rc, out = C.run(["go", "build", "-o", binp, "./cmd/c04gen"], cwd=C.HARNESS, env=C.goenv(), timeout=900)
+    if rc == 0:
+        rc, out = C.run([binp, "-repo", C.REPO, "-lean", GEN], timeout=300)
+    if rc != 0:
+        C.tie_broken(res, "translator C18/issue creators (c04gen)", out[-3000:])
+        return res.finish()
     groups = {g: set(ks) for g, ks in lkeys.items()}
     groups.setdefault("origins", set())
     for st in static:     # the origins / formats / types the creation sites name join the locale parameter table
@@ -294,6 +365,12 @@ def run(res):
     if unmatched:
         C.tie_broken(res, "translator C18/reach", "FinalizeIssue was reached from calls the go/ast translator does not list:\n" + "\n".join(unmatched[:20]))
         return res.finish()
+    ncells, unmatched = attach_cells(static, os.path.join(rundir, "reach2.txt"))
+    if unmatched:
+        C.tie_broken(res, "translator C18/reach cells", "FinalizeIssue was reached from calls the go/ast translator does not list:\n" + "\n".join(unmatched[:20]))
+        return res.finish()
+    STATIC = static
+    filter_reach_ops(static, rundir)
     seen = [l.rstrip("\n").split("\t") for l in open(os.path.join(rundir, "seen.txt")) if l.strip()]
     ch1 = write_if_changed(os.path.join(GEN, "MsgWiring.lean"), gen_wiring(SITES))
     ch2 = write_if_changed(os.path.join(GEN, "LocaleTable.lean"), gen_locales(loc, producible_kinds(static)))
@@ -348,7 +425,13 @@ def run(res):
     res.coverage["gaps"] = {s: d["missing"] for s, d in SITES.items() if d["missing"] and d["wrapper"] == "top"}
     reached = [st for st in static if st["class"] in ("finalize", "helper") and st["reached"]]
     res.coverage["static_sites"] = dict(collections.Counter(st["class"] for st in static))
-    res.coverage["static_sites_reached_by_a_leaf"] = "%d of %d finalising calls" % (len(reached), sum(1 for st in static if st["class"] in ("finalize", "helper")))
+    fins = [st for st in static if st["class"] in ("finalize", "helper")]
+    res.coverage["static_sites_reached_by_a_leaf"] = "%d of %d finalising calls" % (len(reached), len(fins))
+    cov = [st for st in fins if st["reached"] or st.get("cells")]
+    res.coverage["static_sites_reached"] = "%d of %d finalising calls by a leaf or a cell of the coverage search (%d cells: constructor family x variant x input); %d more in functions the translator finds unreachable from the public API" % (
+        len(cov), len(fins), ncells, sum(1 for st in fins if st.get("dead") and st not in cov))
+    res.coverage["static_sites_not_reached"] = [st["key"] for st in fins if st not in cov and not st.get("dead")]
+    res.coverage["static_sites_witness"] = {st["key"]: (st["reached"] + st.get("cells", []))[0] for st in cov}
     res.coverage["static_sites_dropping_a_source"] = {st["key"]: site_drops(st) for st in static if site_drops(st)}
     res.coverage["positions"] = {w: ("forwards the context" if fw else "drops the per-parse map") for w, fw in positions(SITES).items()}
     res.coverage["rule"] = ("60 issue leaves (invalid_type per raising schema, too_small/too_big per origin, invalid_format per format, not_multiple_of, "
